@@ -6,6 +6,17 @@
 #include <string.h>
 #include <gmssl/asn1.h>
 #include "vh.h"
+// depth-first walk over all TLVs with the library's own reader, descending into constructed values (C06 / spec/Wire.tla)
+static int walk(const uint8_t *p, size_t l, long *nodes)
+{
+	while (l) {
+		int tag; const uint8_t *d; size_t dl;
+		if (asn1_any_type_from_der(&tag, &d, &dl, &p, &l) != 1) return -1;
+		(*nodes)++;
+		if ((tag & 0x20) && walk(d, dl, nodes) != 1) return -1;
+	}
+	return 1;
+}
 int main(int argc, char **argv)
 {
 	if (argc < 3) return 2;
@@ -18,6 +29,7 @@ int main(int argc, char **argv)
 		const uint8_t *p = in; size_t l = n; int rc = -99; long vals[80]; int nv = 0; uint8_t outb[600]; size_t outl = 0, dry = 0;
 		vt_begin("V"); vt_int("id", kv_int(&kv, "id", 0)); vt_str("kind", kind);
 		if (!strcmp(kind, "length")) { size_t len = 0; rc = asn1_length_from_der(&len, &p, &l); if (rc == -2) rc = 1; /* -2: the length itself is fine, the body announced is longer than the input */ vals[nv++] = (long)len; }
+		else if (!strcmp(kind, "walk")) { long nn = 0; rc = n ? walk(in, n, &nn) : 1; vals[nv++] = rc == 1 ? nn : 0; }
 		else if (!strcmp(kind, "integer")) { const uint8_t *a; size_t al = 0; rc = asn1_integer_from_der_ex(2, &a, &al, &p, &l); if (rc == 1) for (size_t i = 0; i < al && nv < 80; i++) vals[nv++] = a[i]; }
 		else if (!strcmp(kind, "int")) { int v = 0; rc = asn1_int_from_der_ex(2, &v, &p, &l); vals[nv++] = v; }
 		else if (!strcmp(kind, "boolean")) { int v = 0; rc = asn1_boolean_from_der_ex(1, &v, &p, &l); vals[nv++] = v; }
